@@ -269,7 +269,10 @@ def run_tlc(module, cfg, workers=8, timeout=600, env_extra=None, tags=("CASE",),
     r.cases = r.lines.get("CASE", [])
     if "Parsing or semantic analysis failed" in out or "*** Errors:" in out or "Fatal errors" in out:
         raise ToolError("TLC could not parse %s:\n%s" % (module, out[-3000:]))
-    if "is violated" in out or "Temporal properties were violated" in out:
+    if "The first argument of Assert evaluated to FALSE" in out:
+        i = out.find("The first argument of Assert evaluated to FALSE")
+        r.violation = out[max(0, i - 200):i + keep_raw]
+    elif "is violated" in out or "Temporal properties were violated" in out:
         i = out.find("Error:")
         r.violation = out[i:i + keep_raw]
     elif "Error:" in out:
@@ -317,6 +320,7 @@ class Check:
         self.t0 = time.time()
         self.violations = []       # (key, description, replay-payload)
         self.known_hit = {}        # key -> description
+        self.drifts = {}           # key -> (description, count): the implementation-shaped model no longer mirrors the code
         self.cov = {"states": 0, "transitions": 0, "traces_validated_against_impl": 0, "samples": [],
                     "evaluations": 0, "distinct_nontrivial": 0, "rule": "", "exhaustive": False}
         self.assumptions = []
@@ -341,6 +345,16 @@ class Check:
         self.violations.append((key, what, payload))
         return True
 
+    def drift(self, key, what, payload=None):
+        """The implementation-shaped part of the model disagrees with the code on something the
+        property itself does not state (a counter, an internal order).  Not an alarm: the property's
+        own predicates are evaluated separately on the observation; but the model-checked design
+        results no longer transfer to the code, which the evidence records."""
+        if key in self.drifts:
+            self.drifts[key] = (self.drifts[key][0], self.drifts[key][1] + 1)
+        else:
+            self.drifts[key] = (what, 1)
+
     def finish(self):
         os.makedirs(EVID, exist_ok=True)
         os.makedirs(REPLAYS, exist_ok=True)
@@ -348,6 +362,9 @@ class Check:
         cov = dict(self.cov)
         cov.update(self.notes)
         cov["known_findings_hit"] = sorted(self.known_hit)
+        cov["model_drift"] = [{"key": k, "what": v[0], "count": v[1]} for k, v in sorted(self.drifts.items())]
+        for k, v in sorted(self.drifts.items()):
+            print("MODEL-DRIFT property=%s %s (x%d) [%s]" % (self.pid, v[0], v[1], k))
         if cov["states"] < 1 or cov["transitions"] < 1:
             # model_checking evidence needs TLC statistics; fall back to generic keys
             cov.pop("states")
